@@ -69,7 +69,7 @@ OkRT2(e) == /\ e.ub = 0
 \* the rule change (instant) whose civil description is <<from, to>>, or <<>> if there is none
 RuleChangeShown(Z, from, to) ==
   LET C == RuleCtx(Z, to[1])
-      v == {c.at : c \in {c \in C : BreakC(Z, C, c.at).cs = to /\ TrCivilC(Z, C, c.at) = <<from, to>>}} IN
+      v == {c.at : c \in {c \in C : BreakC(Z, C, c.at).cs = to /\ IsRealRule(Z, C, c) /\ TrCivilC(Z, C, c.at) = <<from, to>>}} IN
   IF v = {} THEN <<>> ELSE CHOOSE c \in v : TRUE
 OkNext(e) ==
   /\ e.ub = 0
